@@ -21,7 +21,7 @@ theorem pDim_prDim (d : Dim) (rest : List Tok) (hd : dimOk d = true) (hr : dimFo
   match rest, hr with
   | .sym c :: r, hr =>
     simp only [dimFollow, Bool.or_eq_true, beq_iff_eq] at hr
-    cases n <;> cases l <;> simp only [dimOk] at hd <;>
+    cases n <;> cases l <;> simp only [dimOk, Bool.and_true, Bool.true_and, Bool.and_eq_true] at hd <;>
       rcases hr with rfl | rfl <;>
       simp [pDim, prDim, openParens, pDimCore, closeParens, hd]
 
